@@ -85,6 +85,7 @@ class Ownership:
             rel = Relation(c, c.outer, kind)
             # back-pointer: written as <x>.<bp> = self._node / None inside coll
             bps: Set[str] = set()
+            owner_bps: Set[str] = set()
             for f in c.methods.values():
                 for n in walk_no_nested(f.node):
                     if isinstance(n, ast.Assign):
@@ -98,6 +99,11 @@ class Ownership:
                                     attr_path(v_) == (f.self_name, "_node")
                                 if owner_or_none:
                                     bps.add(t.attr)
+                                if attr_path(v_) == (f.self_name, "_node"):
+                                    owner_bps.add(t.attr)
+            if len(bps) != 1 and len(owner_bps) == 1:
+                # several private attributes are reset here, one of them receives the owner
+                bps = owner_bps
             if len(bps) != 1:
                 raise AnalysisError("cannot determine the back-pointer written by %s: %s"
                                     % (c.qualname, sorted(bps)))
